@@ -215,7 +215,7 @@ def check(tier):
         if rmc.distinct < 5000 or len(cases) < 5000 or rpairs.distinct < 1000:
             raise lib.Inconclusive("model too small: %d states, %d emitted cases, %d pair states" % (rmc.distinct, len(cases), rpairs.distinct))
         # 3. binding A: replay the emitted (type, value, text) triples
-        chosen = lib.sample(cases, sz["nreplay"], rnd)
+        chosen = stratified(cases, sz["nreplay"], rnd)
         cin = os.path.join(scd, "cases.ndjson")
         lib.write_ndjson(cin, chosen)
         arep = lib.run_report([binp, "-mode", "replay", "-in", cin], timeout=2400)
@@ -270,6 +270,24 @@ def check(tier):
             "the announced length is capped at 2147483647 when recorded (LONGTEXT/LONGBLOB/JSON announce 4294967295); comparisons with text lengths are unaffected",
         ])
         return rc
+
+
+def stratified(cases, n, rnd):
+    """At most n cases, spread over the (type, result character set) groups: small groups entirely."""
+    if n is None or len(cases) <= n:
+        return list(cases)
+    groups = {}
+    for c in cases:
+        groups.setdefault(json.dumps(c["ty"], sort_keys=True) + c["rcs"], []).append(c)
+    per = max(1, n // len(groups))
+    chosen, rest = [], []
+    for k in sorted(groups):
+        g = groups[k]
+        rnd.shuffle(g)
+        chosen += g[:per]
+        rest += g[per:]
+    rnd.shuffle(rest)
+    return chosen + rest[:max(0, n - len(chosen))]
 
 
 def a_class(m):
